@@ -44,6 +44,9 @@ Some(x) == [has |-> TRUE, v |-> x]
 ----------------------------------------------------------------------------
 (* Write options (the record the harness turns into WriteOptions):        *)
 (*   M, R     update / reset mask                                          *)
+(*   mm       WithMoreUpdateMask, applied after WithUpdateMask: added to   *)
+(*            a non-nil update mask, ignored when there is none (nil means *)
+(*            "all fields" already)                                        *)
 (*   ev       expected value  [has, v]                                     *)
 (*   chk      0 none; 1 = "stored i must be >= 1", else PermissionDenied   *)
 (*   xa, cia  expect-absent, create-if-absent                              *)
@@ -63,7 +66,15 @@ CheckErr(chk, oldmsg) == IF chk = 1 /\ oldmsg.i < 1 THEN "PermissionDenied" ELSE
 Before(o, oldmsg, wr) == IF o.ib = 1 THEN [wr EXCEPT !.i = wr.i + oldmsg.i] ELSE wr
 After(o, oldmsg, new) == IF o.ia = 1 /\ oldmsg.i # new.i THEN [new EXCEPT !.s = 1] ELSE new
 
-MaskErr(o) == IF ~o.M.nil /\ ~MaskValid(o.M) THEN "InvalidArgument"
+\* the update mask a write really uses
+\* (fieldmaskpb.Union normalises: a path listed together with one of its ancestors disappears,
+\*  even an invalid one)
+RECURSIVE SetToSeq(_)
+SetToSeq(S) == IF S = {} THEN <<>> ELSE LET x == CHOOSE y \in S : TRUE IN <<x>> \o SetToSeq(S \ {x})
+EffM(o) == IF o.M.nil \/ o.mm.nil THEN o.M
+           ELSE Mask(SetToSeq(NormSet(PathSet(o.M) \cup PathSet(o.mm))))
+
+MaskErr(o) == IF ~o.M.nil /\ ~MaskValid(EffM(o)) THEN "InvalidArgument"
               ELSE IF ~o.R.nil /\ ~MaskValid(o.R) THEN "Internal" ELSE "OK"
 
 \* precondition + merge on an existing (or freshly created empty) message
@@ -72,7 +83,7 @@ Change(o, oldmsg, wr) ==
   IF o.ev.has /\ o.ev.v # oldmsg THEN [err |-> "FailedPrecondition", new |-> oldmsg]
   ELSE IF CheckErr(o.chk, oldmsg) # "OK" THEN [err |-> CheckErr(o.chk, oldmsg), new |-> oldmsg]
   ELSE LET w2 == Before(o, oldmsg, wr)
-           merged == UpdateResult(oldmsg, w2, o.M, NilMask, o.R)
+           merged == UpdateResult(oldmsg, w2, EffM(o), NilMask, o.R)
        IN [err |-> "OK", new |-> After(o, oldmsg, merged)]
 
 WriteTime(o, now) == IF o.wt >= 0 THEN o.wt ELSE now
